@@ -124,7 +124,7 @@ def addr_pair_st(draw, tier):
         a, b = draw(adjacent_run_group())
         return {"a": a, "b": b, "pa": draw(st.sampled_from(["ios", "nxos"])), "pb": draw(st.sampled_from(["ios", "nxos"]))}
     # 2^9 x 2^9 prefixes once in a while: the library's cover test may switch strategy with size
-    kmax = draw(st.sampled_from([4, 4, 4, 4, 4, 4, 7, 7, 9]))  # 2^7 x 2^7 prefixes: large expansions, still cheap
+    kmax = draw(st.sampled_from([4] * 24 + [7] * 5 + [9]))  # 2^7 x 2^7 prefixes: large expansions, still cheap
     a = draw(G.addr_st(kmax=kmax, groups=True))
     b = draw(G.mutate_addr(a, kmax=kmax, groups=True))
     if draw(st.integers(0, 2)) == 0:
